@@ -14,23 +14,29 @@ def showPhrase (ws : List Word) : String := escape (joinWords ws)
 /-- the standard spelling (variant function constantly 0) -/
 def std : Var := fun _ => 0
 
-/-- is `ws` (hyphens opened) a variant spelling of `c`? searched over a fixed family of variant seeds -/
+/-- word normalisation used when comparing spellings in the pair rule: French plural `s`
+(`quatre-vingts`, `cents`) is an inflection the property lists among the accepted variants -/
+def normWord (code : String) (w : Word) : Word :=
+  if code == "fr" && w != w!"trois" && w.length > 3 then trimEndBy (· == 's') w else w
+
+/-- is `ws` (hyphens opened, conjunctions removed) a variant spelling of `c`, conjunctions being
+optional? searched over a fixed family of variant seeds -/
 def isSpellingOf (sp : Speller) (c : Nat) (ws : List Word) : Bool :=
+  let norm (l : List Word) : List Word := ((openHyphens l).filter (· != sp.conj)).map (normWord sp.code)
   (List.range 48).any (fun s =>
     let v : Var := if s == 0 then std else varOfSeed s
-    openHyphens (sp.cardinal v c) == ws)
+    norm (sp.cardinal v c) == norm ws)
 
-/-- C08: what `spell a (joiner) spell b` may be rewritten to: both numbers, or the single number
-whose spelling consists of exactly the words of `a` and `b` (with or without the conjunction). -/
+/-- C08: what `spell a (joiner) spell b` may be rewritten to: both numbers (with the joiner kept),
+or the single number one of whose variant spellings consists of exactly the words of `a` and `b`
+(the conjunction being optional, as in C01), or — a spoken zero first — the leading-zero reading of C16. -/
 def allowedPair (sp : Speller) (a b : Nat) (withConj : Bool) : List Word :=
-  let wa := openHyphens (sp.cardinal std a)
-  let wb := openHyphens (sp.cardinal std b)
+  let wa := sp.cardinal std a
+  let wb := sp.cardinal std b
   let both : Word :=
     if withConj then decChars a ++ [' '] ++ sp.conj ++ [' '] ++ decChars b else decChars a ++ [' '] ++ decChars b
-  let fused := ([a + b, a * b].eraseDups).filter (fun c =>
-    isSpellingOf sp c (wa ++ wb) || (withConj && isSpellingOf sp c (wa ++ [sp.conj] ++ wb)))
-  -- a spoken zero followed by a number reads as a leading zero (C16)
-  let lead : List Word := if a == 0 && !withConj then [['0'] ++ decChars b] else []
+  let fused := ([a + b, a * b].eraseDups).filter (fun c => isSpellingOf sp c (wa ++ wb))
+  let lead : List Word := if a == 0 then [['0'] ++ decChars b] else []
   both :: (lead ++ fused.map decChars)
 
 def gen (fields : List String) : String :=
